@@ -324,6 +324,55 @@ def run(rep, tier):
                             f'`def __init__({nm}, {nm})` (SyntaxError: duplicate argument)',
                             'sourcer/expressions/class_.py:Class._compile_class_body'))
     shared.entry_closure_rule(rep, mods)
+    # (iv) the attribute namespace: fields of a user class are instance attributes (constant members class
+    # attributes) of a ParsedObject subclass, so every name ParsedObject itself defines must lie outside the user
+    # identifier space (leading underscore) - a public helper is shadowed by a field of that name
+    rep.rule('NAME-attribute', 'ParsedObject defines no public attribute or method: a class field of the same name would '
+                               'shadow it on the instances the runtime itself works with')
+    n_attr = 0
+    for what, tree, rel in routes.runtime_subjects():
+        po = load.classes_of(tree).get('ParsedObject')
+        if po is None:
+            raise AnalysisError(f'{what}: anchor class ParsedObject vanished')
+        for st in po.body:
+            names = [st.name] if isinstance(st, (ast.FunctionDef, ast.ClassDef)) else \
+                [t.id for t in getattr(st, 'targets', []) if isinstance(t, ast.Name)] if isinstance(st, ast.Assign) else \
+                [st.target.id] if isinstance(st, ast.AnnAssign) and isinstance(st.target, ast.Name) else []
+            for nm in names:
+                n_attr += 1
+                rep.oblige(nm.startswith('_'))
+                if not nm.startswith('_'):
+                    rep.add(Finding('NAME-attribute', 'ParsedObject', nm,
+                                    f'{what}: ParsedObject.{nm} is a public name: a class field (or constant member) named '
+                                    f'`{nm}` shadows it, and the runtime calling `node.{nm}` gets the user\'s value',
+                                    f'{rel} ({what})'))
+    # the same for what the generator itself puts into the body of a user class next to the user's members
+    gen_public = {}
+    for m in mods:
+        if not isinstance(m, modroute.Emitted) or getattr(m, 'route', '') == 'shipped-parser' or not getattr(m, 'body', None):
+            continue
+        for o in m.body:
+            if not (isinstance(o, M_Obj) and o.cls.name == 'Class'):
+                continue
+            cdef = m.classes.get(o.d.get('name'))
+            if cdef is None:
+                continue
+            members = {mm.d.get('name') for mm in (o.d.get('members') or []) if isinstance(mm, M_Obj)}
+            for st in cdef.body:
+                names = [st.name] if isinstance(st, (ast.FunctionDef, ast.ClassDef)) else \
+                    [t.id for t in getattr(st, 'targets', []) if isinstance(t, ast.Name)] if isinstance(st, ast.Assign) else []
+                for nm in names:
+                    n_attr += 1
+                    if not nm.startswith('_') and nm not in members:
+                        gen_public.setdefault(nm, f'{m.label}: class {cdef.name}')
+    for nm, where in sorted(gen_public.items()):
+        rep.oblige(False)
+        rep.add(Finding('NAME-attribute', 'generated-class', nm,
+                        f'the generator defines `{nm}` in the body of every user class ({where}): a constant member '
+                        f'`let {nm}: ...` of the class is overwritten by it (reading obj.{nm} gives the generated '
+                        f'function, not the member)', 'sourcer/expressions/class_.py:Class._compile_class_body'))
+    rep.count('ParsedObject attributes examined', n_attr)
+    rep.floor('ParsedObject attributes examined', n_attr, 10)
     from . import C06
     C06.interception_table(rep)
     documented = ['Apply', 'Backtrack', 'Byte', 'Choice', 'Discard', 'Expect', 'ExpectNot', 'Fail', 'Left', 'Let',
